@@ -268,6 +268,9 @@ def known_findings():
         return {"known": [], "fixed": []}
     return json.load(open(p))
 
+def is_known(prop, fid):
+    return any(k.get("property") == prop and k.get("id") == fid for k in known_findings().get("known", []))
+
 class Result:
     def __init__(self, prop, tier, seed):
         self.prop, self.tier, self.seed = prop, tier, seed
@@ -286,6 +289,12 @@ class Result:
     def known(self, text):
         if text not in self.known_hits:
             self.known_hits.append(text)
+    def finding(self, fid, text, replay):
+        """a genuine defect: reported as KNOWN-FINDING iff listed in known_findings.json, else as a violation"""
+        if is_known(self.prop, fid):
+            self.known("[%s] %s" % (fid, text))
+        else:
+            self.violation(text, replay)
     def finish(self, checker_cmd, trusted_base, extra=None):
         bad = [o for o in self.obligations if not o[1]]
         if bad and not self.violations:
